@@ -503,6 +503,10 @@ def error_aggregation_rule(A: Analysis, col: Collector, rule: str):
         else:
             col.fail(rule, fn.qualname, "loop-ends-with-pending-futures", f"the scheduling loop's condition `{norm(lp.test, 70)}` does not keep the loop alive while spawned futures (`{inflight}`) are pending: it can end as soon as every result is on disk, before the failed futures were collected, and the final error then does not name every failed job", A.loc(lp))
     else:
+        # the spawn may have been moved into a helper method of the submitter
+        for g in A.callees(fn):
+            if g.qualname != fn.qualname and g.module is fn.module and any("asyncio.Task" in A.callee_names(c, g) or (isinstance(c.func, ast.Attribute) and c.func.attr in ("create_task", "ensure_future")) for c in A.calls(g)):
+                raise AnalysisError(f"{fn.qualname}: the spawn of job futures is not in the scheduling loop but in helper {g.qualname}; the aggregation rule is intraprocedural and cannot decide this shape")
         col.fail(rule, fn.qualname, "no-inflight-collection", "spawned job futures are not tracked / the scheduling loop was not found", A.loc(fn.node))
     # WorkflowOutputs._from_job: iterate all nodes with errored, raise
     fj = A.func("pydra.compose.workflow.WorkflowOutputs._from_job")
@@ -639,6 +643,8 @@ def scan_order_rule(A: Analysis, col: Collector, rule: str, gr: FuncInfo):
         pred_expr = f"{norm(lp.iter.value)}.predecessors[{v}.name]"
         pred_src = [n for n in walk_own(lp) if isinstance(n, ast.Assign) and isinstance(n.value, ast.Call) and dotted(n.value.func) == "set" and n.value.args and norm(n.value.args[0]) == pred_expr]
         inline = any(isinstance(k, ast.Call) and dotted(k.func) == "set" and k.args and norm(k.args[0]) == pred_expr for b in breaks for k in ast.walk(b.stmt.test))
+        # any(p in <recorded> for p in graph.predecessors[node.name]) -- a scan over the complete list
+        inline = inline or any(isinstance(k, ast.Call) and dotted(k.func) == "any" and k.args and isinstance(k.args[0], ast.GeneratorExp) and norm(k.args[0].generators[0].iter) == pred_expr and not k.args[0].generators[0].ifs for b in breaks for k in ast.walk(b.stmt.test))
         if pred_src or inline:
             col.ok(rule, "scan: stops at the first node one of whose (complete) predecessors was recorded as not started", A.loc(breaks[0].stmt))
         else:
